@@ -60,7 +60,10 @@ type c09Sim struct {
 	reached  []chan struct{}
 	after    []chan struct{}
 	outcome  []chan c09DialOutcome
+	turn     []chan struct{}   // r5: lets a dial whose context was cancelled return
+	ctxs     []context.Context // r5: the dial context of each want
 	hooked   map[int]bool
+	cancelledDials int // r5: dials CloseIdleConnections stopped (bucket)
 	dialDone map[int]bool
 	release  chan struct{}
 	over     chan struct{}
@@ -86,6 +89,18 @@ func newC09Sim(maxIdle, maxIdleHost, maxConns int, disableKA bool, nKeys int) *c
 		select {
 		case o := <-outcome:
 			return o.conn, o.err
+		case <-ctx.Done():
+			// r5: the dial context was cancelled (Transport.CloseIdleConnections is the only
+			// caller of wantConn.cancelCtx). A real dial fails right away; so that several
+			// cancelled dials finish in an order the model knows, each waits for its turn.
+			s.mu.Lock()
+			turn := s.turn[id]
+			s.mu.Unlock()
+			select {
+			case <-turn:
+			case <-s.over:
+			}
+			return nil, ctx.Err()
 		case <-s.over:
 			return nil, errors.New("verif: case over")
 		}
@@ -116,6 +131,8 @@ func (s *c09Sim) newWant(k int) int {
 	s.reached = append(s.reached, make(chan struct{}))
 	s.after = append(s.after, after)
 	s.outcome = append(s.outcome, make(chan c09DialOutcome, 1))
+	s.turn = append(s.turn, make(chan struct{}, 1))
+	s.ctxs = append(s.ctxs, ctx)
 	s.mu.Unlock()
 	return id
 }
@@ -389,6 +406,21 @@ func (s *c09Sim) apply(op []string) (string, error) {
 		return "-", nil
 	case "CI":
 		s.t.CloseIdleConnections()
+		// r5: dials parked in the hook whose context the call cancelled fail now, one at a
+		// time in ascending want order (the model: H1PoolDial.cancelTargets, then dialFail)
+		for id := range s.wants {
+			if !s.hooked[id] || s.ctxs[id].Err() == nil {
+				continue
+			}
+			s.cancelledDials++
+			s.turn[id] <- struct{}{}
+			if err := s.waitDialGoroutineGone(id); err != nil {
+				return "", err
+			}
+			if err := s.settle(); err != nil {
+				return "", err
+			}
+		}
 		return "-", nil
 	}
 	return "", fmt.Errorf("unknown op %v", op)
@@ -411,7 +443,7 @@ func (s *c09Sim) idleListed(c int) bool {
 
 func TestVerif_C09_pool(t *testing.T) {
 	s := verifh.New(t, "C09", "pool",
-		"op sequences of 8..70 composite pool operations (getConn halves newWant/queueForIdleConn/queueForDial, dial success/failure through the real dialConnFor goroutine parked in a dial hook, getConn receive, wantConn.cancel, readLoop-at-EOF tryPutIdleConn, connection death, peer closing an idle connection with lazy removal, removeIdleConn, closeConnIfStillIdle, CloseIdleConnections) on 1..3 keys with MaxIdleConns 0..3, MaxIdleConnsPerHost -1..3, MaxConnsPerHost 0..3, DisableKeepAlives; mostly protocol-shaped flows plus out-of-protocol calls (queueForDial on a delivered want, double queueForIdleConn, cancel in every state); after EVERY op the real pool state (idleConn, idleConnWait, connsPerHost, connsPerHostWait, idleLRU order, closeIdle, dialsInProgress, closed connections, persistConn.reused of visible connections, done wants) is compared with the Lean model; non-trivial = sequence that reused an idle connection or handed one to a waiter")
+		"op sequences of 8..70 composite pool operations (getConn halves newWant/queueForIdleConn/queueForDial, dial success/failure through the real dialConnFor goroutine parked in a dial hook, getConn receive, wantConn.cancel, readLoop-at-EOF tryPutIdleConn, connection death, peer closing an idle connection with lazy removal, removeIdleConn, closeConnIfStillIdle, CloseIdleConnections — also while dials are parked: the dial hook honours its context, a dial the call cancels fails at once) on 1..3 keys with MaxIdleConns 0..3, MaxIdleConnsPerHost -1..3, MaxConnsPerHost 0..3, DisableKeepAlives; mostly protocol-shaped flows plus out-of-protocol calls (queueForDial on a delivered want, double queueForIdleConn, cancel in every state); after EVERY op the real pool state (idleConn, idleConnWait, connsPerHost, connsPerHostWait, idleLRU order, closeIdle, dialsInProgress, closed connections, persistConn.reused of visible connections, done wants) is compared with the Lean model; non-trivial = sequence that reused an idle connection or handed one to a waiter")
 	r := s.Rand()
 	n := verifh.N(4000, 60000)
 	nFail := 0
@@ -431,6 +463,7 @@ func TestVerif_C09_pool(t *testing.T) {
 		finished := map[int]bool{}
 		canceled := map[int]bool{}
 		reused, handed := false, false
+		sparedWanted := false
 		var fail error
 		const maxWants, maxConnsN = 14, 14
 		emit := func(parts ...string) bool {
@@ -514,7 +547,14 @@ func TestVerif_C09_pool(t *testing.T) {
 				}
 			case x < 42: // a parked dial completes
 				if w := pickWant(func(i int) bool { return sim.hooked[i] }); w >= 0 {
-					if r.Intn(5) == 0 || nConns >= maxConnsN {
+					if r.Intn(7) == 0 {
+						// r5: CloseIdleConnections while dials are under way (the administrative
+						// call concurrent with a caller at this waiting point)
+						before := len(sim.hooked)
+						if emit("CI") && len(sim.hooked) > 0 && before > 0 {
+							sparedWanted = true
+						}
+					} else if r.Intn(5) == 0 || nConns >= maxConnsN {
 						emit("DX", strconv.Itoa(w))
 					} else {
 						emit("DO", strconv.Itoa(w), strconv.Itoa(nConns))
@@ -583,6 +623,12 @@ func TestVerif_C09_pool(t *testing.T) {
 		}
 		if handed {
 			s.Count("handed-to-waiter")
+		}
+		if sim.cancelledDials > 0 {
+			s.Count("close-idle:cancelled-unwanted-dial")
+		}
+		if sparedWanted {
+			s.Count("close-idle:dial-still-parked-after")
 		}
 		closedBefore := 0
 		for i, o := range impl {
